@@ -52,6 +52,31 @@ for nm in ['b', 'x1', 'b c', 'a.b', 'if', "q'", '9z', 'é', 'b-c']:
                     viol.append({'what': '%s of a path that runs through an existing leaf is accepted and changes another binding' % op, 'path': path, 'doc': base, 'text': out})
             except (KeyError, ValueError): pass
             except Exception as ex: viol.append({'what': '%s raises %s' % (op, type(ex).__name__), 'path': path, 'doc': base})
+# ---- thirteenth round (unconditional): every pattern of quoted and bare segments over two and three positions — quoted at both ends included —
+# as an attrpath binding written in the FILE and as one written by the library: a second set finds it (no second definition), rm removes exactly it
+import itertools
+QSEG = {'q': ['a.b', 'd e', 'x y', 'new-one'], 'b': ['a', 'c', 'k1', "z'"]}
+for npos in (2, 3):
+    for pat in itertools.product('qb', repeat=npos):
+        segs = [QSEG[k][(i * 2 + npos) % len(QSEG[k])] for i, k in enumerate(pat)]
+        if len(set(segs)) < len(segs): segs = [x + str(i) if k == 'b' else x + ' %d' % i for i, (x, k) in enumerate(zip(segs, pat))]
+        path = '.'.join(spell(x) if k == 'b' else quote(x) for x, k in zip(segs, pat))
+        for origin in ('file', 'library'):
+            n_eval += 1; kinds['quote-pattern/' + ''.join(pat) + '/' + origin] = kinds.get('quote-pattern/' + ''.join(pat) + '/' + origin, 0) + 1
+            try:
+                if origin == 'file': t1 = '{ %s = 1; keep = 0; }\n' % path
+                else:
+                    root0 = spell(segs[0]) if pat[0] == 'b' else quote(segs[0])
+                    t1 = set_value(parse('{ %s.keep0 = 0; keep = 0; }\n' % root0), path, '1')
+                tr1, d1 = tree_of(t1)
+                if tr1 is None or tr1.get(tuple(segs)) != '1' or d1: viol.append({'what': 'a path with quoted and bare segments is not written / read as that path', 'path': path, 'text': t1}); continue
+                t2 = set_value(parse(t1), path, '2'); tr2, d2 = tree_of(t2)
+                if tr2 is None or tr2.get(tuple(segs)) != '2' or d2 or len(tr2) != len(tr1) or t2.count(' = 2;') != 1:
+                    viol.append({'what': 'a second set with the same path does not find the binding (second definition or other binding changed)', 'path': path, 'doc': t1, 'text': t2}); continue
+                t3 = remove_value(parse(t1), path); tr3, _ = tree_of(t3)
+                if tr3 is None or tuple(segs) in tr3 or tr3.get(('keep',)) != '0' or len(tr3) != len(tr1) - 1: viol.append({'what': 'rm does not remove exactly the addressed binding', 'path': path, 'doc': t1, 'text': t3}); continue
+            except Exception as ex:
+                viol.append({'what': 'edit through a path with quoted and bare segments raises %s: %s' % (type(ex).__name__, ex), 'path': path, 'origin': origin}); continue
 # ---- names that contain the scope marker, addressed WITH a scope selector (eighth round): only the leading @ run selects the layer
 from edit_lib import read_layers
 for nm in ['user@host', 'a@b', '@x', 'x@', '@', 'a.b@c']:
